@@ -382,6 +382,40 @@ def template_sources() -> list:
 	return out
 
 
+STRING_LITERALS = ['"a"', "'a'", '""', "''", '"a\\"b"', "'a\\'b'", '"a\\""', "'\\''", '"a\\\\"', '"it\'s"', '\'say "hi"\'', 'r"a\\b"', 'r"\\""', '"""a"""', '"""a"b"""', '"""a\\""""', '"""\\""""', '"""a\\\\"""', '"""a\\"b"""',
+	'"""a\\" ""b"""', '"""a\nb"""', '"""\n\n"""', '"""a\\"\\"\\""""', '"x\\n"', '"#"', "'# c'", '"(["', '"a" "b"']
+
+
+def string_sources() -> list:
+	"""string literals (plain, raw, triple double-quoted, with escaped quotes and backslashes next to the closing quote, holding
+	comment / bracket characters) in three statement contexts"""
+	out = []
+	for lit in STRING_LITERALS:
+		out += [f's = {lit}\n', f'f({lit}, {lit})  # c\n', f'if x:\n\ts = {lit} + {lit}\ny = 1\n']
+	return out
+
+
+def strings_closed() -> bool:
+	"""closed obligation: on the string-literal family the significant tokens equal what the real CPython tokenize module produces"""
+	for src in string_sources():
+		want = pylex_ref.cpython_significant(src)
+		if want is None:
+			continue
+		cover('template')
+		cover('member')
+		if tranp_significant(src) != want:
+			return ok(False)
+	return ok(True)
+
+
+def explain_strings() -> str:
+	for src in string_sources():
+		want = pylex_ref.cpython_significant(src)
+		if want is not None and tranp_significant(src) != want:
+			return f'source {src!r}: tranp {tranp_significant(src)!r} / CPython tokenize {want!r}'
+	return 'no difference'
+
+
 def templates_closed() -> bool:
 	"""closed obligation: on the template family the significant tokens equal what the real CPython tokenize module produces"""
 	for src in template_sources():
@@ -405,6 +439,7 @@ def explain_templates() -> str:
 CLASSIFIERS: dict = {}
 EXPLAIN = {
 	'templates_closed': explain_templates,
+	'strings_closed': explain_strings,
 	'cpython_law': explain_cpython,
 	'lexer_laws': explain_lexer,
 	'balance_law': explain_balance,
